@@ -180,6 +180,8 @@ pub fn tables() -> Vec<(&'static str, String)> {
         ("keys-overlap-normalisation", "Ⅲ\nA\nAb Q\nｶ カカ\nｶﾞ ガ\naa B\naab ㍿\nb b\n".to_string()),
         // no replacements at all
         ("exempt-only", "é\nÉ\nc\n".to_string()),
+        // keys whose characters have different UTF-8 widths (narrow first, wide first)
+        ("mixed-width-keys", "aあ X\naあ𠮷 YY\nあa Z\n𠮷a W\né𠮷b V\nbé𠮷 U\na𠮷𠮷 T\n".to_string()),
     ]
 }
 
@@ -212,8 +214,12 @@ pub fn main(tier: Tier, replay: Option<String>) -> i32 {
         ));
     }
     // (2) strings under each table
-    let alpha = syms(&["a", "b", "c"], &["A", "ｶ", "ﾞ", "Ⅲ", "㍿", "é", "É", "B"]);
     for (name, def) in tabs.iter() {
+        let alpha = if *name == "mixed-width-keys" {
+            syms(&["a", "あ", "𠮷"], &["b", "é", "A", "Ａ", "㍿"])
+        } else {
+            syms(&["a", "b", "c"], &["A", "ｶ", "ﾞ", "Ⅲ", "㍿", "é", "É", "B"])
+        };
         let w1 = world_with_input(&format!("W-c07s-{}-a", name), Some(def.clone()), di());
         let w2 = world_with_input(&format!("W-c07s-{}-b", name), Some(def.clone()), di());
         let table = RewriteTable::parse(def);
@@ -263,7 +269,7 @@ pub fn main(tier: Tier, replay: Option<String>) -> i32 {
                 NormTree {
                     label: format!("yomigana-max{}-{}", max, bl),
                     worlds: vec![w],
-                    alpha: syms(&["漢", "(", ")", "カ", "な", "a", "（", "）"], &[]),
+                    alpha: syms(&["漢", "(", ")", "カ", "な", "a", "（", "）", "一", "ァ", "ー"], &[]),
                     bounds,
                     reference: Box::new(move |s| {
                         ref_yomigana(
